@@ -33,6 +33,8 @@ fn kind_of(site: &str) -> &'static str {
     }
 }
 
+static POLL_RELEASED: Mutex<Option<Instant>> = Mutex::new(None);
+
 #[derive(Clone, Debug, PartialEq)]
 pub enum St {
     Running,
@@ -89,6 +91,11 @@ impl Gates {
         }
         t.st.insert(a, St::Running);
         cv.notify_all();
+        if a == 0 && kind_of(site) == "poll" {
+            // the receiving thread is about to enter poll(): the timed wait starts now (time spent parked at the
+            // gate must not count towards "waited at least the requested time")
+            *POLL_RELEASED.lock().unwrap() = Some(Instant::now());
+        }
     }
 
     pub fn register(&self, a: i64) {
@@ -509,12 +516,16 @@ fn run_case(case: &Value, gates: &Gates) -> Value {
                 let d = Duration::from_micros((tmo.get(i).copied().unwrap_or(4.0) * 1000.0) as u64);
                 cur_call2.store(i, std::sync::atomic::Ordering::SeqCst);
                 let t0 = Instant::now();
+                *POLL_RELEASED.lock().unwrap() = None;
                 let mut r = match mode.as_str() {
                     "try" => recv_result(rx.try_recv()),
                     "timeout" => recv_result(rx.try_recv_timeout(d)),
                     _ => recv_result(rx.recv().map_err(TryRecvError::IpcError)),
                 };
                 r["elapsed_us"] = json!(t0.elapsed().as_micros() as u64);
+                if let Some(p) = *POLL_RELEASED.lock().unwrap() {
+                    r["poll_us"] = json!(p.elapsed().as_micros() as u64);
+                }
                 r["nb_after"] = json!(-1);
                 let _ = rtx.send(r);
             }
